@@ -716,3 +716,23 @@ func Malformed(r *rng.R, u Universe, o Opts) []byte {
 		return p
 	}
 }
+
+// StorageDance: a short straight-line sequence of SSTOREs (and SLOADs) to one of the slots 0..3 with values from the set
+// the pre-states use: original -> x -> original, x -> 0 -> y, 0 -> x -> 0, repeated writes of the same value.
+func StorageDance(r *rng.R) []byte {
+	b := asm.New()
+	slot := uint64(r.Intn(4))
+	vals := []uint64{0, 0, 1, 2, 3, 0xffff}
+	n := 2 + r.Intn(4)
+	for i := 0; i < n; i++ {
+		if r.Intn(4) == 0 {
+			b.Push(slot).Op(asm.SLOAD).Op(asm.POP)
+		}
+		if r.Intn(5) == 0 {
+			b.Push(slot).Op(asm.SLOAD).Push(slot).Op(asm.SSTORE) // write back what is there
+			continue
+		}
+		b.Push(vals[r.Intn(len(vals))]).Push(slot).Op(asm.SSTORE)
+	}
+	return b.Bytes()
+}
